@@ -77,7 +77,7 @@ def attribute(f, fail, prop, lines):
 
 def match_known(known, prop, unit, f, fail, label, lines):
     for k in known:
-        if k.get('status') != 'open' or k['property'] != prop:
+        if k.get('status') != 'open' or prop not in [k['property']] + k.get('also_properties', []):
             continue
         if k.get('engine', 'verus') != 'verus':
             continue
@@ -338,7 +338,7 @@ def main(argv):
             elif h['status'] == 'FAILED':
                 kk = None
                 for k in known:
-                    if k.get('status') == 'open' and k['property'] == prop and k.get('engine') == 'kani' and k.get('harness') == h['name'] \
+                    if k.get('status') == 'open' and prop in [k['property']] + k.get('also_properties', []) and k.get('engine') == 'kani' and k.get('harness') == h['name'] \
                             and all(any(kf in fc for kf in k.get('failed_checks', [])) for fc in h.get('failed', [])):
                         kk = k
                 already = any(v.get('harness') == h['name'] for v in violations)
